@@ -23,9 +23,10 @@ func init() {
 			ruleL2(c)
 			ruleA3(c)
 			ruleF1(c) // every plugin gets its own full request timeout
+			ruleF4(c) // the adaptation lock is released on every path of a request, vetoed or not
 			ruleF3(c) // a plugin failing fatally during an event is dropped, it does not veto the event for later plugins
 		},
-		explanation: "Decides the table and ordering structure behind event delivery: the event constants are 1..13 (UNKNOWN 0, LAST 14), ValidEvents is exactly their bit-or, the printer's name table is total and Set/Clear/IsSet use one bit expression; every relay calls the RPC named like the event it tests in the plugin's subscription mask and returns the zero reply without calling when the bit is clear; every exported event entry point stamps the event named like itself and forwards it; the implementation dispatcher forwards every RPC to the same-named method with the same request; the active plugin list is only written as a filter of itself, nil, or followed by the sort before the lock is released, the comparator orders by the idx field with '<', and idx only ever holds a value that passed the two-digit check; every request method calls its relay exactly once per iteration of one loop over that list and stops at the first error; the list and the relays are only touched under the adaptation lock and the per-request result never escapes. A plugin failing fatally during an event is closed and its relay returns nil (also when the fatal branch falls through to a shared return), so it does not veto the event for the plugins after it. The context a request method hands to a relay is the request's own (no deadline shared by or chained across the plugins).",
+		explanation: "Decides the table and ordering structure behind event delivery: the event constants are 1..13 (UNKNOWN 0, LAST 14), ValidEvents is exactly their bit-or, the printer's name table is total and Set/Clear/IsSet use one bit expression; every relay calls the RPC named like the event it tests in the plugin's subscription mask and returns the zero reply without calling when the bit is clear; every exported event entry point stamps the event named like itself and forwards it; the implementation dispatcher forwards every RPC to the same-named method with the same request; the active plugin list is only written as a filter of itself, nil, or followed by the sort before the lock is released, the comparator orders by the idx field with '<', and idx only ever holds a value that passed the two-digit check; every request method calls its relay exactly once per iteration of one loop over that list and stops at the first error; the list and the relays are only touched under the adaptation lock and the per-request result never escapes. A plugin failing fatally during an event is closed and its relay returns nil (also when the fatal branch falls through to a shared return), so it does not veto the event for the plugins after it. The context a request method hands to a relay is the request's own (no deadline shared by or chained across the plugins). The adaptation lock is released on every path of a request.",
 		notDecided: []string{
 			"that ttRPC delivers what was sent",
 			"fairness of sync.Mutex (one common order follows from serialisation under one lock; the mutex itself is trusted)",
@@ -611,10 +612,13 @@ func ruleA3(c *Ctx) {
 	}
 	for _, fs := range stores {
 		bad := ""
+		hasDefault := false
 		for _, src := range valueSources(fs.Store.Val, fs.Store, 0) {
 			if cv, ok := constInt(src); ok {
 				if cv != valid {
 					bad = fmt.Sprintf("a constant mask 0x%x other than ValidEvents is stored", cv)
+				} else {
+					hasDefault = true
 				}
 				continue
 			}
@@ -665,6 +669,9 @@ func ruleA3(c *Ctx) {
 			if !checked {
 				bad = "a mask supplied by the plugin reaches plugin.events without passing the check against ValidEvents: the plugin is subscribed with undefined event bits"
 			}
+		}
+		if bad == "" && !hasDefault {
+			bad = "an empty mask is not replaced by ValidEvents: a plugin that subscribes with 0 (\"everything\", as plugins not built on the Go stub do) becomes active but is sent no request at all — containers created after it registered are in neither its snapshot nor a creation request"
 		}
 		c.ok("A3", "configure", fs.Store.Pos(), bad == "", "configure validates the plugin's event mask before subscribing it", bad)
 	}
